@@ -3,8 +3,12 @@
 use std::{env, fs, path::Path};
 
 fn main() {
-    let track_src = "/repo/insim_core/src/track.rs";
-    let packet_src = "/repo/insim/src/packet.rs";
+    // VP_REPO lets the seed-trial tooling build the harness against a scratch copy of the repository; registered
+    // checks never set it and always use /repo
+    println!("cargo:rerun-if-env-changed=VP_REPO");
+    let repo = env::var("VP_REPO").unwrap_or_else(|_| "/repo".to_string());
+    let track_src = &format!("{repo}/insim_core/src/track.rs");
+    let packet_src = &format!("{repo}/insim/src/packet.rs");
     println!("cargo:rerun-if-changed={track_src}");
     println!("cargo:rerun-if-changed={packet_src}");
     println!("cargo:rerun-if-changed=build.rs");
